@@ -110,7 +110,8 @@ class Interp:
         self.loop_specs = {}  # ("rel::qualname", ordinal) -> LoopSpec
         self.opaque_attr = {}  # attr name -> fn(ip, value) for U-sorted values
         from .models_jax import DTYPE_OF
-        self.opaque_attr["dtype"] = lambda ip_, v: DTYPE_OF(v)  # every array value has a dtype (an uninterpreted function of the value)
+        self.opaque_attr["dtype"] = lambda ip_, v: DTYPE_OF(v) if v.sort() == U else ip_.uf("dtype_of_scalar_" + str(v.sort()), sort=U)
+        self.models.setdefault("zattr:dtype", lambda ip_, v: ip_.uf("dtype_of_scalar", sort=U))  # a real / int scalar has a dtype too  # every array value has a dtype (an uninterpreted function of the value)
         self.inlined = set()
         self.used_models = set()
         self.used_summaries = set()
@@ -920,6 +921,9 @@ class Interp:
     def class_attr(self, obj, cls, name, node=None):
         c, mem = cls.find(self, name)
         if mem is None:
+            h = self.models.get("extattr:" + name)  # member inherited from an external (non-repository) base class: trusted model
+            if h is not None:
+                return h(self, obj)
             raise PyRaise("AttributeError", (name,), node)
         return self.bind_member(obj, c, mem, name, node)
 
@@ -1241,6 +1245,8 @@ class Interp:
             if owner is None:
                 raise Unsupported("super() outside method")
             return SuperProxy(slf, owner)
+        if isinstance(node.func, ast.Name) and node.func.id == "locals" and not node.args and "locals" not in env.vars:
+            return dict(env.vars)
         if isinstance(node.func, ast.Name) and node.func.id == "cast" and len(node.args) == 2:
             return self.eval(node.args[1], env, module)
         fn = self.eval(node.func, env, module)
@@ -1572,7 +1578,10 @@ class Interp:
 
     def s_Raise(self, st, env, module):
         if st.exc is None:
-            raise Unsupported("bare raise")
+            cur = getattr(self, "handling", None)
+            if cur:
+                raise cur[-1]  # re-raise the exception being handled
+            raise Unsupported("bare raise outside an except block")
         e = st.exc
         name = None
         args = ()
@@ -1609,7 +1618,13 @@ class Interp:
                 if self.handler_matches(h, e, env, module):
                     if h.name:
                         env.vars[h.name] = e
-                    return self.exec_block(h.body, env, module)
+                    if not hasattr(self, "handling"):
+                        self.handling = []
+                    self.handling.append(e)
+                    try:
+                        return self.exec_block(h.body, env, module)
+                    finally:
+                        self.handling.pop()
             raise
         if sig is not None:
             return sig
